@@ -176,15 +176,32 @@ def r3(ctx: Ctx) -> None:
     if len(rem) != 1 or len(dels) != 1:
         ctx.report(g.where, "zero-elimination-mul", "Expr.__mul__ can leave a term with coefficient 0 (multiplication by 0)", lineno=g.node.lineno)
     ctx.site(g.where, "negative coefficient flipped (constant += c; term replaced by the opposite literal with -c)")
-    flips = [x for x in loops[0][3] if x[0] == "if" and mk_lt(coefm, k_num(0)) in (set(x[1][1]) if x[1][0] == "and" else {x[1]})]
-    ok = False
-    if len(flips) == 1:
-        body = flips[0][2]
-        want_new = ("c", ("g", "Term"), (("c", ("g", "Literal"), (("a", ("a", st_, "L"), "v"), mk_not(("a", ("a", st_, "L"), "s"))), ()),
-                                         (-to_poly(coefm)).to_s()), ())
-        alt = {("aug", "Add", ("a", resm, "c"), coefm), ("set", coefm, (-to_poly(coefm)).to_s()),
-               ("set", ("a", ("a", st_, "L"), "s"), mk_not(("a", ("a", st_, "L"), "s")))}
-        ok = (len(body) == 2 and body[0] == ("aug", "Add", ("a", resm, "c"), coefm) and body[1] == ("set", st_, want_new)) or set(body) == alt
+    # every way through one iteration: the coefficient is flipped exactly when it is tested negative (whether that test is an
+    # 'if' of its own or the 'elif' of the zero test); inside 'for v in table' the key v is in the table
+    from framelint.peval import traces, assume
+    neg = mk_lt(coefm, k_num(0))
+    want_new = ("c", ("g", "Term"), (("c", ("g", "Literal"), (("a", ("a", st_, "L"), "v"), mk_not(("a", ("a", st_, "L"), "s"))), ()),
+                                     (-to_poly(coefm)).to_s()), ())
+    flip_a = [("aug", "Add", ("a", resm, "c"), coefm), ("set", st_, want_new)]
+    flip_b = {("aug", "Add", ("a", resm, "c"), coefm), ("set", coefm, (-to_poly(coefm)).to_s()),
+              ("set", ("a", ("a", st_, "L"), "s"), mk_not(("a", ("a", st_, "L"), "s")))}
+    body_ = assume(tuple(loops[0][3]), ("cmp", "in", v, ("a", resm, "t")), True)
+    ok = True
+    n_flip = 0
+    for lits, effs, out in traces(body_, keep_sets=True):
+        tail = [e for e in effs if e in flip_a or e in flip_b]
+        flipped = tail == flip_a or (set(tail) == flip_b and tail and tail[0] == ("aug", "Add", ("a", resm, "c"), coefm))
+        if tail and not flipped:
+            ok = False
+        tested_neg = neg in lits
+        known_nonneg = mk_not(neg) in lits or mk_eq(coefm, k_num(0)) in lits
+        if flipped:
+            n_flip += 1
+            if not tested_neg:
+                ok = False
+        elif not known_nonneg or tested_neg:
+            ok = False
+    ok = ok and n_flip >= 1
     if not ok:
         ctx.report(g.where, "sign-normalisation-mul", "Expr.__mul__ does not flip a coefficient made negative by the multiplier", lineno=g.node.lineno)
 
